@@ -37,6 +37,15 @@ CLAIMS = {
          "The structural reasons framing depends only on the concatenated bytes are decided: size limit before waiting and before decoding, no consumption before the frame is complete, decoder gets exactly the announced frame and the buffer advances by the decoder's count, every proper header prefix yields ErrShortRead (abstractly interpreted with symbolic content, 8 header shapes × all prefix lengths) which the loop maps to 'wait', the announced length cannot wrap, reads append exactly what was read, hand-over is synchronous and in order. The quantification over all segmentations is argued from these, not executed.",
          TRUST,
          "DESIGN.md §4 C07"),
+ "C09": ("other", "inventory of every blocking operation (select / channel op / semaphore / WaitGroup / sleep) classified by the origin of each case's channel, close-once and defer-first path rules, lockset-at-call rule",
+         "Liveness on cancel/close is decided as an exhaustive inventory: all 38 selects, 6 semaphore waits, 2 WaitGroup waits and the one sleep of the module are classified; every client-operation wait is shown to have a case on the request context and on the connection/server context (or is listed with the holder that bounds it), an unlisted blocking operation fails. Close is decided structurally: compare-and-swap guards, on-close list popped in one critical section, Run arms Close+shutdown before any return, done completed only by shutdown (called only from Run), Close cancels unconditionally, no Close/callback under a server mutex, requests built on the caller's context. Delay bounds in time are not claimed.",
+         TRUST, "DESIGN.md §4 C09"),
+ "C11": ("other", "dominance of the loop-replacement call over each reader-fed wait, who-may-call sets over the type-resolved program, lockset and flag-discipline rules, one-fate path queries",
+         "Decided structurally: every wait that only the reader loop can satisfy is dominated by TryToReplaceLoop (also on the Observe path), the per-message dispatch has a single caller and the queue a single consumer, reader state is touched only under its mutex, the loop's flag discipline and the freshness of a replacement loop's channel and flag hold, and each decoded message meets exactly one of release / inline handling / enqueue on every path. Arrival order under nested blocking handlers depends on Go's unprioritised select and is stated as out of reach, not as holding.",
+         TRUST, "DESIGN.md §4 C11"),
+ "C12": ("other", "ownership typestate of *pool.Message per function over go/ssa with defer modelling and fixpoint-discovered releasers; guard-dominance rules for the hijack protocol",
+         "For all 50 release sites of the module: after a release no path uses, sends, stores or releases the same message again and no deferred release of it is pending; received messages are released only on the not-hijacked edge after the handler returned and the hijack flag is monotone; continuations hijack before handing a message to another goroutine; SetMessage/Swap and all Swap callers account for every message; the pending copy is accessed under its lock and forgotten on release; Pool.ReleaseMessage resets before Put and touches nothing after. Cross-goroutine aliasing through application code is not decided (no pointer analysis available).",
+         TRUST, "DESIGN.md §4 C12"),
  "C13": ("other", "registration-pairing path queries over an inventory of every storing call into Map/Cache-typed fields, deadline non-zero value-flow, error-cell cleanup discipline, acquire/release pairing",
          "Leak-freedom is decided as a pairing discipline on every path: each of the 14 registration sites (all that exist – an unclassified new site fails) is removed on every exit, or its cleanup is handed to callers that all run it, or it is stored with a provably set deadline that the sweep (shown to reach every cache and the pending table) removes; deferred error-cell cleanups see the error actually returned; semaphores, endpoint slots and per-ID locks are released on every exit; the per-ID lock map and endpoint queue delete their entries at zero. Table sizes after histories are not measured.",
          TRUST,
